@@ -184,6 +184,9 @@ def main():
               "length 6 on A(1,2)+B(1,1); non-trivial = distinct builds with a non-zero matrix" % ("all calls" if thorough else "6 calls per layout", "all" if thorough else "260"))
     c.trusted = ["TLC", "harness hfock projection (block matrices placed on the Fock space)"]
     c.assumptions = ["amplitudes are multiples of 1/4; real build", "documented operators transcribed from LatticePresets.h"]
+    # call histories of the documented workflow with every object constructed up front (spec/Workflow.tla)
+    import workflow
+    workflow.attach(c, {"HS"}, 'index Hamiltonian')
     c.finish()
 
 
